@@ -46,10 +46,16 @@ TACTIC = r'''/-- the ONE generic proof script of every generated theorem.  Argum
     definitions it is built from and that the translated Rust body does not mention.
     1. definitional unfolding; 2. the same after unfolding the model constant; 3. if the elaborator cannot see through two
     differently compiled `match`es on a stuck scrutinee: unfold the `Outcome` combinators, rewrite the model's synonyms
-    (`alias_*` above) and case-split on whatever is stuck; 4. as 3. with the helper definitions unfolded too. -/
-macro "deleg_tac " f:ident hs:ident* : tactic => `(tactic| first
+    (`alias_*` above) and case-split on whatever is stuck; 4. as 3. with the helper definitions unfolded too.
+    Between 2. and 3.: the same case-splitting after unfolding, one level deep, exactly the definitions that ONE side
+    mentions and the other does not (`gs`: the callees of the Rust body whose definition the model inlines, and the
+    model's direct helpers that neither the Rust body nor those callees mention). -/
+macro "deleg_tac " f:ident gs:ident* " ; " hs:ident* : tactic => `(tactic| first
   | rfl
   | (unfold $f; rfl)
+  | (simp only [$f:ident, $[$gs:ident],*, ALIASES Bnum.Outcome.expect, Bnum.Outcome.bind, Bnum.Outcome.map]
+     repeat' (first | rfl | (split <;> try simp_all only [SIMPSET]))
+     done)
   | (unfold $f
      try simp only [ALIASES Bnum.Outcome.expect, Bnum.Outcome.bind, Bnum.Outcome.map]
      repeat' (first | rfl | (split <;> try simp_all only [SIMPSET]))
@@ -110,8 +116,8 @@ def analyse(src):
     results = {}
     for key, f in sorted(tb.bykey.items()):
         r = {'key': key, 'file': 'src/' + f.file, 'line': f.line, 'fn': f.name,
-             'impl': ('impl %s for %s' % (f.trait + (('<' + f.trait_args + '>') if f.trait_args else ''), ('&' if f.self_ref else '') + f.self_kind))
-                     if f.trait else 'impl ' + f.self_kind,
+             'impl': ('impl %s for %s' % (f.trait + (('<' + f.trait_args + '>') if f.trait_args else ''), ('&' if f.self_ref else '') + (f.self_kind or f.self_text)))
+                     if f.trait else 'impl ' + (f.self_kind or f.self_text),
              'thm': thm_name(key), 'via': f.via, 'site': 'src/' + f.site}
         results[key] = r
         dup_differs = [d for d in tb.dups.get(key, []) if body_text(d) != body_text(f)]
@@ -128,7 +134,7 @@ def analyse(src):
             continue
         r['lean'] = c
         try:
-            t = tr_core.Translator(tb, sy, f, c, ent['pre'], ent['post'])
+            t = tr_core.Translator(tb, sy, f, c, ent['pre'], ent['post'], ent['named'])
             out = t.translate_fn()
             if out['lhs'].replace('(', '').replace(')', '') == out['rhs'].replace('(', '').replace(')', ''):
                 r.update(status='trivial', reason='model constant and translated body coincide syntactically (same constant models caller and callee, or direct recursion): no theorem')
@@ -145,7 +151,7 @@ def analyse(src):
         except (IndexError, KeyError, TypeError, ValueError, AttributeError, RecursionError) as e:
             r.update(status='unsupported', reason='translator could not handle the body (%s: %s)' % (type(e).__name__, e))
     for r in results.values():
-        if r['status'] == 'ok': r['helpers'] = helpers_of(sy, r)
+        if r['status'] == 'ok': r['helpers'] = helpers_of(sy, r); r['onelevel'] = one_level_of(sy, r)
     # theorem names must be unique
     seen = {}
     for key, r in results.items():
@@ -175,6 +181,22 @@ def helpers_of(sy, r):
         if c in r['consts'] and c not in out: out.append(c)
     return out
 
+def one_level_of(sy, r):
+    """definitions mentioned by ONE side only, one level deep: B \\ A (callees of the Rust body that the model constant does
+    not call: the model inlines them) and A \\ (B ∪ what those callees use) (the model's own direct helpers)"""
+    def is_def(u):
+        s2 = sy.sigs.get(u)
+        return s2 is not None and s2.get('kind') == 'def' and not u.startswith('Bnum.Outcome.') and u != 'Bnum.tupleToOption' \
+            and any(p[0] == '(' for p in s2['params'])      # functions only: constants such as `fmtF32` stay folded
+    skip = set(sy.aliases) | set(sy.aliases.values())
+    A = [u for u in sy.sigs.get(r['lean'], {}).get('uses', []) if u != r['lean']]
+    B = sorted(set(r['consts']) - {r['lean']})
+    rhs_only = [g for g in B if g not in A and is_def(g) and g not in skip and not g.startswith('Bnum.Ops.b')]
+    B2 = set(B)
+    for g in rhs_only: B2.update(sy.sigs[g].get('uses', []))
+    lhs_only = [h for h in A if h not in B2 and is_def(h) and h not in skip]
+    return rhs_only + lhs_only
+
 CTX_ORDER = ['dbg', 'e', 'bw', 'w', 'n']
 CTX_TYPES = {'dbg': 'Bool', 'e': 'Bool', 'bw': 'Nat', 'w': 'Nat', 'n': 'Nat'}
 
@@ -185,7 +207,7 @@ def theorem_text(r):
     for nm, lty, _ in r['binders']:
         bs += ' (%s : %s)' % (nm, lty)
     doc = '/-- `%s` — %s:%d (%s) -/' % (r['key'], r['file'], r['line'], r['impl'])
-    return '%s\ntheorem %s%s :\n    %s\n    = %s := by deleg_tac %s\n' % (doc, r['thm'], bs, r['lhs'], r['rhs'], ' '.join([r['lean']] + r.get('helpers', [])))
+    return '%s\ntheorem %s%s :\n    %s\n    = %s := by deleg_tac %s\n' % (doc, r['thm'], bs, r['lhs'], r['rhs'], '%s ; %s' % (' '.join([r['lean']] + r.get('onelevel', [])), ' '.join(r.get('helpers', []))))
 
 def generate(results, sy, exclude=()):
     """write Deleg.lean; -> (line ranges: [(first, last, key)], names)"""
@@ -276,9 +298,12 @@ def run_lean(mods):
             cur[2] += '\n' + line
     return msgs, p.returncode, p.stdout
 
-def check_generated(results, sy):
-    """generate + elaborate (+ regenerate without failing theorems). -> (tied names->key, failed: key -> detail, axioms problems, wall)"""
-    failed = {}
+def check_generated(results, sy, known_unproved=()):
+    """generate + elaborate (+ regenerate without failing theorems). -> (tied names->key, failed: key -> detail, axioms problems, wall)
+    known_unproved: keys whose equation did not check when the expected list was written; they are not attempted again (they
+    stay in the file as comments and are reported as `known_unproved`), so that the unchanged tree needs ONE build"""
+    failed = {k: 'equation did not check when the expected list was written (--write-expected); not attempted' for k in known_unproved
+              if k in results and results[k]['status'] == 'ok'}
     for attempt in range(3):
         ranges, names, mods, ax_first = generate(results, sy, exclude={k: 'equation no longer checks' for k in failed})
         msgs, rc, raw = run_lean(mods)
@@ -345,15 +370,16 @@ def cmd_check(args):
 
 def cmd_check_inner(args, t0):
     results, crate, sy = analyse(args.src)
-    names, failed, bad_ax, raw = check_generated(results, sy)
+    expected = []; known = []
+    if os.path.exists(EXPECTED_JSON):
+        with open(EXPECTED_JSON) as fh: ej = json.load(fh)
+        expected = ej['functions']; known = ej.get('unproved', [])
+    names, failed, bad_ax, raw = check_generated(results, sy, known)
     # final library build of the (now clean) generated file
     byname = {r['thm']: r for r in results.values()}
     tied = []
     if names is not None:
         tied = [n for n in names if n not in bad_ax]
-    expected = []
-    if os.path.exists(EXPECTED_JSON):
-        with open(EXPECTED_JSON) as fh: expected = json.load(fh)['functions']
     broken = []
     exp_names = set()
     for ex in expected:
@@ -379,9 +405,10 @@ def cmd_check_inner(args, t0):
     new = [n for n in tied if n not in exp_names]
     # failing theorems that are not in the expected list are reported too (they are neither tied nor expected)
     unexpected_fail = [{'fn': results[k]['fn'], 'key': k, 'file': results[k]['file'], 'reason': 'equation does not check (not in expected list)',
-                        'detail': failed[k]} for k in failed if results[k]['thm'] not in exp_names]
+                        'detail': failed[k]} for k in failed if results[k]['thm'] not in exp_names and k not in known]
     out = {'tied': tied, 'broken': broken, 'new': new, 'wall_s': round(time.time() - t0, 1)}
     if unexpected_fail: out['untied_new_failures'] = unexpected_fail
+    if known: out['known_unproved'] = sorted(k for k in known if k in failed)
     if crate.errors: out['frontend_errors'] = ['%s: %s' % e for e in crate.errors]
     bad = forbidden_tokens()
     if bad: out['forbidden_tokens'] = bad
@@ -401,7 +428,9 @@ def cmd_write_expected(args):
         fns.append({'key': r['key'], 'file': r['file'], 'impl': r['impl'], 'fn': r['fn'], 'theorem': n, 'model': r['lean']})
     with open(EXPECTED_JSON, 'w') as fh:
         json.dump({'_doc': 'Rust functions tied by a generated theorem of lean/Bnum/Generated/Deleg.lean on the unchanged tree '
-                           '(written by gen/translate.py --write-expected)', 'functions': fns}, fh, indent=1)
+                           '(written by gen/translate.py --write-expected); `unproved`: translated functions whose equation did not check '
+                           '(untied; not attempted again by --check until the next --write-expected)', 'functions': fns,
+                   'unproved': sorted(failed)}, fh, indent=1)
     print('wrote %s: %d functions; %d failing, %d with axiom problems' % (EXPECTED_JSON, len(fns), len(failed), len(bad_ax)))
     for k, d in failed.items(): print('FAIL', k, d[:300].replace('\n', ' '))
     return 0
@@ -409,6 +438,12 @@ def cmd_write_expected(args):
 def cmd_list(args):
     results, crate, sy = analyse(args.src)
     from collections import Counter
+    if os.path.exists(EXPECTED_JSON):
+        with open(EXPECTED_JSON) as fh: known = json.load(fh).get('unproved', [])
+        for k in known:
+            if k in results and results[k]['status'] == 'ok':
+                results[k]['status'] = 'unproved'
+                results[k]['reason'] = 'translated, but the equation with %s does not check (untied): %s' % (results[k]['lean'], results[k]['rhs'][:120])
     cnt = Counter(r['status'] for r in results.values())
     for key, r in sorted(results.items(), key=lambda kv: (kv[1]['status'], kv[0])):
         if args.status and r['status'] != args.status: continue
